@@ -389,7 +389,7 @@ def rule_format_coherence(prog, C, module, clsname, label, rule="R-C04-b", cfgs=
     return n
 
 
-def rule_exact_tests(prog, C):
+def rule_exact_tests(prog, C, rule="R-C04-c"):
     """R-C04-c (index cube only: regions are differenced): == 0 / != 0 only on integral counters, else via adjust_zeros(new=0)."""
     n = 0
     for name in SHARED:
@@ -411,7 +411,7 @@ def rule_exact_tests(prog, C):
                     integral = bool(forms) and all(is_integral(scalarise(erase_R(f), cfg)) for f in forms)
                     adjusted = m.zero_adjusted(term)
                     cons = "%s region %d (%s), weights %s, %s" % (name, pos, m.role(pos), w, "ignore" if ign else "propagate")
-                    C.ok(integral or adjusted, "R-C04-c", "ffuncs:ffunc_%s.reduce" % name, cons,
+                    C.ok(integral or adjusted, rule, "ffuncs:ffunc_%s.reduce" % name, cons,
                          "integral counter" if integral else "snapped to zero by adjust_zeros(new=0) before the exact test",
                          "a weighted (floating-point) counter that went through marginal differencing is compared with 0 exactly",
                          witness={"inputs": "weights like 0.1, 0.2, 0.3 on a common cell: the differenced sum is 5.5e-17, not 0, so an empty cell is reported valid"})
